@@ -6,20 +6,89 @@
    three invocations and the two scans agreed, the first invocation stayed
    within the affine wall-time bound. *)
 From Coq Require Import List ZArith Bool.
-From YV Require Import Modules.Rva.
+From YV Require Import Modules.Rva Modules.Leb Modules.VarInt Modules.Cores.
 Import ListNotations.
 Local Open Scope Z_scope.
 
 Inductive case :=
 | KRun (returned deterministic time_ok : bool)
-| KRva (ss : list section) (fa sa : Z) (pairs : list (Z * option Z)).
+| KRva (ss : list section) (fa sa : Z) (pairs : list (Z * option Z))
+(* arithmetic cores, observed through the hook lib/src/modules/verif_c11*.rs or
+   in the modules' public output *)
+| KUleb (bytes : list Z) (obs : Leb.lres)
+| KSleb (bytes : list Z) (obs : Leb.lres)
+| KVarU (bytes : list Z) (obs : option (Z * nat))
+| KVarS (bytes : list Z) (obs : option (Z * nat))
+| KCoded (ntables rows : Z) (bytes : list Z) (obs : option (nat * Z * Z))
+| KTblIdx (rows : Z) (bytes : list Z) (obs : option (nat * Z))
+| KLnk (size_len : Z) (bytes : list Z) (obs : option Cores.lres)
+| KOverlay (secs : list (Z * Z)) (file_len off size : Z)
+| KElf (exe : bool) (segs : list phdr) (secs : list shdr) (rva : Z) (obs : option Z).
 
 Definition oz_eqb (a b : option Z) : bool :=
   match a, b with None, None => true | Some x, Some y => x =? y | _, _ => false end.
 
+Definition lres_eqb (a b : Leb.lres) : bool :=
+  match a, b with
+  | LOk v n, LOk w m => (v =? w) && Nat.eqb n m
+  | LErrEof, LErrEof | LErrTooLarge, LErrTooLarge => true
+  | _, _ => false
+  end.
+Definition ozn_eqb (a b : option (Z * nat)) : bool :=
+  match a, b with None, None => true | Some (v, n), Some (w, m) => (v =? w) && Nat.eqb n m | _, _ => false end.
+(* little-endian value of the first n bytes, None if there are fewer *)
+Fixpoint le_bytes (n : nat) (l : list Z) : option Z :=
+  match n, l with
+  | O, _ => Some 0
+  | S k, b :: t => match le_bytes k t with Some r => Some (b + 256 * r) | None => None end
+  | S _, [] => None
+  end.
+Definition coded_model (ntables rows : Z) (bytes : list Z) : option (nat * Z * Z) :=
+  match coded_index_width ntables rows with
+  | WBytes w => match le_bytes (Z.to_nat w) bytes with
+                | Some u => match coded_from_u32 ntables u with Some (t, r) => Some (Z.to_nat w, t, r) | None => None end
+                | None => None
+                end
+  | _ => None
+  end.
+Definition tblidx_model (rows : Z) (bytes : list Z) : option (nat * Z) :=
+  let w := table_index_width rows in
+  match le_bytes (Z.to_nat w) bytes with Some u => Some (Z.to_nat w, Z.max 0 (u - 1)) | None => None end.
+Definition lnk_model (size_len : Z) (bytes : list Z) : option Cores.lres :=
+  match le_bytes (Z.to_nat size_len) bytes with
+  | Some size => Some (lnk_length_data (Z.of_nat (List.length bytes)) size_len size)
+  | None => None                                   (* the size field itself is missing *)
+  end.
+Definition clres_eqb (a b : option Cores.lres) : bool :=
+  match a, b with
+  | None, None => true
+  | Some (LTake x), Some (LTake y) => x =? y
+  | Some LTooLarge, Some LTooLarge | Some LIncomplete, Some LIncomplete => true
+  | _, _ => false
+  end.
+
 Definition check_case (k : case) : bool :=
   match k with
   | KRun _ _ _ => true
+  | KUleb b obs => lres_eqb (uleb128 b) obs
+  | KSleb b obs => lres_eqb (sleb128 b) obs
+  | KVarU b obs => ozn_eqb (var_uint b) obs
+  | KVarS b obs => ozn_eqb (var_sint b) obs
+  | KCoded nt rows b obs =>
+      match coded_model nt rows b, obs with
+      | None, None => true
+      | Some (c, t, r), Some (c', t', r') => Nat.eqb c c' && (t =? t') && (r =? r')
+      | _, _ => false
+      end
+  | KTblIdx rows b obs =>
+      match tblidx_model rows b, obs with
+      | None, None => true
+      | Some (c, r), Some (c', r') => Nat.eqb c c' && (r =? r')
+      | _, _ => false
+      end
+  | KLnk sl b obs => clres_eqb (lnk_model sl b) obs
+  | KOverlay secs len off size => let '(o, z) := pe_overlay secs len in (o =? off) && (z =? size)
+  | KElf exe segs secs rva obs => oz_eqb (eres_value (elf_rva_to_offset exe segs secs rva)) obs
   | KRva ss fa sa pairs =>
       forallb (fun p => match rva_to_offset (fst p) ss fa sa with
                         | Returned r => oz_eqb r (snd p)
@@ -30,5 +99,5 @@ Definition check_case (k : case) : bool :=
 Definition spec_case (k : case) : bool :=
   match k with
   | KRun r d t => r && d && t
-  | KRva _ _ _ _ => true
+  | _ => true
   end.
